@@ -96,3 +96,23 @@ pub fn blobs(ctx: &Ctx) {
     let p = Program { guid: "g".into(), ops: vec![Op::Blob(pattern(1, 4 * pad4)), Op::Blob(pattern(len as u64, len)), Op::Image(image(3, true, len, 5))], ..Default::default() };
     run(ctx, &p);
 }
+
+/// extension programs: all sequences of <= 3 registration attempts over 2 prefixes x 2 URLs,
+/// followed by a cloud using an attribute of the first prefix (when registered)
+pub fn ext(ctx: &Ctx) {
+    let n = ctx.pick("registrations", 4);
+    let mut ops = Vec::new();
+    for _ in 0..n {
+        let k = ctx.pick("registration", 4);
+        let (pf, url) = [("ext", "http://example.com/a"), ("ext", "http://example.com/b"), ("e2", "http://example.com/a"), ("e2", "urn:x:y")][k];
+        ops.push(Op::ExtTry(pf.into(), url.into()));
+    }
+    let has_ext = ops.iter().any(|o| matches!(o, Op::ExtTry(p, _) if p == "ext"));
+    let mut proto = crate::cat::xyz(crate::cat::F32);
+    if has_ext {
+        proto.push(crate::cat::ext_rec("ext", "attr", e57spec::model::Ty::Int { min: 0, max: 9 }));
+    }
+    ops.push(Op::Cloud(cloud(proto, 2, 3)));
+    let p = Program { guid: "g".into(), ops, ..Default::default() };
+    run(ctx, &p);
+}
